@@ -49,6 +49,11 @@ MUTANTS = [
  ("mt-worker-no-flip", "toasty/multi_tan.py", "            continue\n\n        if image.get_parity_sign() != tile_parity_sign:\n            image.flip_parity()", "            continue\n", ["C09"], []),
  ("mt-worker-image-y", "toasty/multi_tan.py", "            if tile_parity_sign == 1:\n                image_y = image.height - (image_y + height)\n                tile_y = 256 - (tile_y + height)\n\n            ix_idx", "            if tile_parity_sign == 1:\n                image_y = image.height - (image_y + height) - (1 if image_y else 0)\n                tile_y = 256 - (tile_y + height)\n\n            ix_idx", ["C09"], []),
  ("mt-crpix-from-first", "toasty/multi_tan.py", "        ref_headers[\"CRPIX1\"] = this_crpix1 + 1 + (mtdesc.crxmin - global_crxmin)", "        ref_headers[\"CRPIX1\"] = this_crpix1 + 1 + (self._descs[0].crxmin - global_crxmin)", ["C09"], []),
+ ("reuse-no-restore", "toasty/fits_tiler.py", "                    self._copy_wtml_to_builder()", "                    pass", ["C17"], []),
+ ("scheme-template-swapped", "toasty/pyramid.py", "            self._scheme = \"L{1}X{2}Y{3}\"", "            self._scheme = \"L{1}X{3}Y{2}\"", ["C17"], []),
+ ("lyyx-swapped", "toasty/pyramid.py", "            d, \"{}_{}.{}\".format(iy, ix, format or self._default_format)", "            d, \"{}_{}.{}\".format(ix, iy, format or self._default_format)", ["C17"], []),
+ ("tile-levels-off", "toasty/study.py", "        imgset.tile_levels = self._tile_levels\n", "        imgset.tile_levels = self._tile_levels + 1\n", ["C17"], []),
+ ("filetype-no-dot", "toasty/builder.py", "        self.imgset.file_type = \".\" + pio.get_default_format()\n        self.imgset.url = pio.get_path_scheme() + self.imgset.file_type\n\n        self.place = Place()", "        self.imgset.file_type = \".\" + pio.get_default_format()\n        self.imgset.url = pio.get_path_scheme() + \".png\"\n\n        self.place = Place()", ["C17"], []),
  ("lxy-swapped", "toasty/pyramid.py", "            \"L{}X{}Y{}.{}\".format(level, ix, iy, format or self._default_format),", "            \"L{}X{}Y{}.{}\".format(level, iy, ix, format or self._default_format),", ["C17"], ["C02"]),
  ("sampler-flip-always", "toasty/toast.py", "        if self._invert_into_tiles:\n            sampled_data = sampled_data[::-1]", "        if True:\n            sampled_data = sampled_data[::-1]", ["C06"], []),
  ("sampler-level0-quadrants-swapped", "toasty/toast.py", "        y_idx = slice(128 * tile.pos.y, 128 * (tile.pos.y + 1))\n        x_idx = slice(128 * tile.pos.x, 128 * (tile.pos.x + 1))", "        y_idx = slice(128 * tile.pos.x, 128 * (tile.pos.x + 1))\n        x_idx = slice(128 * tile.pos.y, 128 * (tile.pos.y + 1))", ["C06"], []),
